@@ -407,3 +407,29 @@ Lemma bad_width_first_is_4xx : forall r rest, negb ((si_tid r =? 16) && (si_sid 
 Proof.
   intros r rest H. unfold parse_spans. cbn [parse_spans_with]. unfold on_span. rewrite H. reflexivity.
 Qed.
+
+(* ... and so does a span with a wrong width ANYWHERE in the request: the spans before it (well-formed, flushed
+   or not) are pushed without incident, then the handler's error is the answer *)
+Definition span_good (r : span_in) : Prop := ((si_tid r =? 16) && (si_sid r =? 8))%N = true.
+
+Lemma on_span_good : forall st r, span_good r -> exists st' out, on_span st r = inl (st', out).
+Proof.
+  intros st r H. unfold on_span. red in H. rewrite H. cbn [negb].
+  destruct (MiB <? _)%N; eexists; eexists; reflexivity.
+Qed.
+
+Lemma bad_width_anywhere_is_4xx : forall pre r rest st w failed,
+  world_ok w = true -> span_st_ok st -> Forall span_good pre ->
+  negb ((si_tid r =? 16) && (si_sid r =? 8))%N = true ->
+  cls_of_parse (fst (do_parse ctx_traces w failed (parse_spans st (map EvSpan pre ++ EvSpan r :: rest)))) = C4xx.
+Proof.
+  unfold parse_spans.
+  induction pre as [|a pre IH]; intros r rest st w failed Hw Hst Hpre Hbad; cbn [map app parse_spans_with].
+  - unfold on_span. rewrite Hbad. reflexivity.
+  - inversion Hpre as [|? ? Ha Hpre']; subst.
+    destruct (on_span_good st a Ha) as [st' [out Hon]]. rewrite Hon.
+    destruct (on_span_inv _ _ _ _ Hst Hon) as [Hst' [->|[sp [at_ [-> [Hs Hat]]]]]].
+    + cbn [app]. apply IH; assumption.
+    + cbn [app]. rewrite do_parse_cons_ok'; [|reflexivity|apply push_spans_ok; assumption].
+      apply IH; assumption.
+Qed.
